@@ -186,4 +186,39 @@ example :
     ∧ varMatches [] v2 (viewOf [] (clientVarOf [] v2)) = true := by
   decide +kernel
 
+/-- **The whole served state table is read back as the definition**, variable by variable and in
+    order, and the client's eager schema construction (`_state_variable_create_schema`) succeeds.
+    (Full statement of `client_sees_definition` also covers the action list with its argument
+    bindings and the device tree with embedded devices; those parts are not proved — see
+    design/C14.md — and are checked on every run by the correspondence and the judge `svcMatches` /
+    `devMatches`.) -/
+theorem client_sees_definition_partial (fs : Facts) (vars : List VarDef) (hw : ∀ vd ∈ vars, VarWF fs vd) :
+    parseVars fs (vars.map (serializeVar fs)) = some (vars.map (clientVarOf fs))
+    ∧ allMatch (varMatches fs) vars ((vars.map (clientVarOf fs)).map (viewOf fs)) = true := by
+  refine ⟨parseVars_serialize hw, ?_⟩
+  induction vars with
+  | nil => rfl
+  | cons vd r ih =>
+    simp only [List.map_cons, allMatch, Bool.and_eq_true]
+    exact ⟨var_roundtrip (hw vd List.mem_cons_self), ih (fun x hx => hw x (List.mem_cons_of_mem _ hx))⟩
+
+/-- non-vacuity of the invalid-request theorems: an unparseable `ui2` text, an omitted argument and
+    an out-of-range value are invalid requests; the model answers 400, 400 and fault 402 -/
+example :
+    let vA : VarDef := ⟨"VarA".toList, "ui2".toList, false, some "1".toList, some "10".toList, none, none⟩
+    let act : SAct := ⟨"Act".toList, [⟨"A".toList, vA⟩], []⟩
+    let stype := "urn:schemas-upnp-org:service:S0:1".toList
+    let hdr := some ('"' :: stype ++ '#' :: "Act".toList ++ ['"'])
+    let req := fun (kids : List Xml) => (⟨hdr, some (envelope [.node ⟨stype, "Act".toList⟩ [] none kids])⟩ : Req)
+    let r1 := req [leaf (plain "A".toList) "abc".toList]
+    let r2 := req []
+    let r3 := req [leaf (plain "A".toList) "11".toList]
+    (invalidReq [] [act] r1 && invalidReq [] [act] r2 && invalidReq [] [act] r3) = true
+    ∧ (match serverHandle [] stype [act] (fun _ _ => .ret []) r1 with | .http 400 _ => true | _ => false) = true
+    ∧ (match serverHandle [] stype [act] (fun _ _ => .ret []) r2 with | .http 400 _ => true | _ => false) = true
+    ∧ (match serverHandle [] stype [act] (fun _ _ => .ret []) r3 with
+       | .resp 500 b => (match parseFault b with | some (.ok (some 402)) => true | _ => false)
+       | _ => false) = true := by
+  decide +kernel
+
 end Upnp.C14
